@@ -16,6 +16,10 @@ var (
 	ErrEnvelopeExists = errors.New("envelope already exists")
 )
 
+// memoryDequeuePollInterval bounds how long a waiting Dequeue sleeps before it
+// looks at the queue again (same value as the SQLite store's default).
+const memoryDequeuePollInterval = 25 * time.Millisecond
+
 type MemoryOption func(*MemoryStore)
 
 func WithNowFunc(now func() time.Time) MemoryOption {
@@ -670,7 +674,14 @@ func (s *MemoryStore) Dequeue(req DequeueRequest) (DequeueResponse, error) {
 			return DequeueResponse{}, nil
 		}
 
-		timer := time.NewTimer(remaining)
+		// A message can become ready while we wait without anybody signalling
+		// it (a lease runs out, a nack delay matures): look again at the poll
+		// interval, as the SQLite store does, and once more at the deadline.
+		sleep := remaining
+		if sleep > memoryDequeuePollInterval {
+			sleep = memoryDequeuePollInterval
+		}
+		timer := time.NewTimer(sleep)
 		select {
 		case <-waitCh:
 			if !timer.Stop() {
@@ -678,7 +689,7 @@ func (s *MemoryStore) Dequeue(req DequeueRequest) (DequeueResponse, error) {
 			}
 			continue
 		case <-timer.C:
-			return DequeueResponse{}, nil
+			continue
 		}
 	}
 }
